@@ -816,6 +816,9 @@ Definition value_eqb (a b : value) : bool :=
   | VBool x, VBool y => Bool.eqb x y
   | VList x, VList y => (Nat.eqb (length x) (length y)) && forallb (fun p => path_eqb (fst p) (snd p)) (combine x y)
   | VPtr, VPtr => true
+  | VObj x, VObj y =>                         (* the same fields, in any order *)
+    let feq (a b : seg * sval) := N.eqb (fst a) (fst b) && sval_eqb (snd a) (snd b) in
+    Nat.eqb (length x) (length y) && forallb (fun a => existsb (feq a) y) x && forallb (fun b => existsb (fun a => feq a b) x) y
   | _, _ => false
   end.
 Definition pv_eqb (a b : path * value) : bool := path_eqb (fst a) (fst b) && value_eqb (snd a) (snd b).
@@ -846,8 +849,22 @@ Definition emit_leaf (reg : registry) (e : path * sval) : list (path * value) :=
     | _, _ => []
     end
   end.
+(* a struct-valued path with a handler (map entry: walkMap; non-nil pointer field: walkValue) is emitted with the
+   pointer itself; the token shows the struct's direct scalar fields and "?" (SList []) for anything nested *)
+Definition last_seg (p : path) : seg := last p WILD.
+Definition obj_fields (cfg : store) (c : path) : list (seg * sval) :=
+  flat_map (fun e => if (Nat.eqb (length (fst e)) (S (length c))) && is_prefix_b c (fst e)
+                     then [(last_seg (fst e), match snd e with SList _ => SList [] | v => v end)] else []) (leaves cfg) ++
+  flat_map (fun d => if (Nat.eqb (length d) (S (length c))) && is_prefix_b c d then [(last_seg d, SList [])] else []) (conts cfg).
+Definition emit_cont (reg : registry) (cfg : store) (c : path) : list (path * value) :=
+  match get_handler reg c with
+  | Some hi => if h_typed (hget reg hi) then [] else
+               match h_kind (hget reg hi) with KObj | KObjF => [(c, VObj (obj_fields cfg c))] | _ => [] end
+  | None => []
+  end.
 Definition expected_emit (reg : registry) (cfg : store) : list (path * value) :=
-  flat_map (emit_leaf reg) (leaves cfg).     (* map entries under typed wildcards (KEntry) are never emitted *)
+  flat_map (emit_leaf reg) (leaves cfg) ++ flat_map (emit_cont reg cfg) (conts cfg).
+  (* map entries under typed wildcards (KEntry) are never emitted: the walker builds paths from raw keys *)
 
 (* cfg := candidate with the subtree under [drop] removed and the entries of [add] put in *)
 Definition graft (s : store) (drop : path) (add : store) : store :=
